@@ -1,0 +1,18 @@
+//go:build verif
+
+package common
+
+// Verification hooks for property C34 (custodian updates): thin exported wrappers around
+// unexported functions. Compiled only with `-tags verif`.
+
+func (tx *Transaction) VerifValidateCustodianUpdateNodes(store CustodianReader, now uint64) error {
+	return tx.validateCustodianUpdateNodes(store, now)
+}
+
+func VerifParseCustodianNode(extra []byte, genesis bool) (*CustodianNode, error) {
+	return parseCustodianNode(extra, genesis)
+}
+
+func (cn *CustodianNode) VerifValidate() error {
+	return cn.validate()
+}
